@@ -223,7 +223,7 @@ def gen_value(rng, d: Desc, t, long_ok=True):
         elif r < 0.9 or not long_ok:
             n = rng.randint(1, 8)
         else:
-            n = rng.randint(100, 400)
+            n = rng.randint(40, 120)
         cs = [rng.randint(0, 127) for _ in range(n)]
         return "".join(chr(c) for c in cs), {"s": cs}
     if k == "enum":
@@ -250,7 +250,7 @@ def gen_value(rng, d: Desc, t, long_ok=True):
         elif r < 0.93 or not long_ok:
             n = rng.randint(1, 4)
         else:
-            n = rng.randint(30, 120)
+            n = rng.randint(20, 40)
         xs = [gen_value(rng, d, t[1], False) for _ in range(n)]
         return [x[0] for x in xs], [x[1] for x in xs]
     if k == "opt":
